@@ -69,6 +69,7 @@ func loadVectors(path string) ([]*vector, *table, error) {
 		case "meta":
 			var m struct {
 				Base       []*metaBase `json:"base"`
+				Classify   [][]string  `json:"classifying"`
 				Uncompared [][]string  `json:"uncompared"`
 				Derived    [][]string  `json:"derived"`
 			}
@@ -77,6 +78,9 @@ func loadVectors(path string) ([]*vector, *table, error) {
 			}
 			for _, b := range m.Base {
 				tab.base[b.View] = b
+			}
+			for _, p := range m.Classify {
+				tab.classify = append(tab.classify, [2]string{p[0], p[1]})
 			}
 			for _, p := range m.Uncompared {
 				tab.uncomp[p[0]+"."+p[1]] = true
